@@ -11,6 +11,7 @@ from __future__ import annotations
 
 import itertools
 import random
+import signal
 from fractions import Fraction
 from typing import Any, Callable, Dict, Iterable, List, Optional, Sequence, Tuple
 
@@ -21,6 +22,35 @@ from harness import gen
 from harness.common import InfraError, Names, Toks, enc_dfa, enc_word, sym_names, toks
 
 DRV = "drv_dfa_query"
+
+
+# ------------------------------------------------------------------ wall-clock guard for real calls
+TIMEOUT_S = 10
+TIMEOUTS = 0
+
+
+class _Timeout(Exception):
+    pass
+
+
+def _alarm(signum, frame):
+    raise _Timeout()
+
+
+def guarded(f, seconds: float = None):
+    """Run a real library call under a wall-clock guard: a broken loop (mutant, regression)
+    must become an observable ("err", "_Timeout"), not a hanging check."""
+    global TIMEOUTS
+    from harness.common import call
+    signal.signal(signal.SIGALRM, _alarm)
+    signal.setitimer(signal.ITIMER_REAL, seconds or TIMEOUT_S)
+    try:
+        r = call(f)
+    finally:
+        signal.setitimer(signal.ITIMER_REAL, 0)
+    if r == ("err", "_Timeout"):
+        TIMEOUTS += 1
+    return r
 
 
 # ------------------------------------------------------------------ decoding
